@@ -317,31 +317,8 @@ def run(ctx):
     rets = [render(n['e'], f) for n in walk(f['body']) if n.get('k') == 'return']
     if rets != ['(& (- $0 f:Teakra::MemoryInterfaceUnit::mmio_base) 2047)']:
         ctx.report(R5, f, f['body'], 'MemoryInterfaceUnit::ToMMIO', 'window offset is not (addr - mmio_base) & (MMIOSize-1): %s' % rets)
-    # window test: base <= a < base + MMIOSize, with the upper bound NOT truncated to 16 bits
-    f = ctx.fn('Teakra::MemoryInterfaceUnit::InMMIO(unsigned short) const')
     ctx.inst(R5)
-    from ..intervals import Intervals
-    IV = Intervals(ctx.F, {})
-    lower = upper = False
-    for n in walk(f['body']):
-        if n.get('k') == 'bin' and n.get('op') in ('<', '<=', '>', '>='):
-            l, r = n['lhs'], n['rhs']
-            op = n['op']
-            if render(r, f) == '$0':
-                l, r = r, l
-                op = {'<': '>', '>': '<', '<=': '>=', '>=': '<='}[op]
-            if render(l, f) != '$0':
-                continue
-            if op == '>=' and render(r, f) == 'f:Teakra::MemoryInterfaceUnit::mmio_base':
-                lower = True
-            if op == '<':
-                iv = IV.iv(r, f)
-                if iv == (0x800, 0xFFFF + 0x800) and 'mmio_base' in render(r, f):
-                    upper = True
-    if not (lower and upper):
-        ctx.report(R5, f, f['body'], 'MemoryInterfaceUnit::InMMIO',
-                   'window test is not mmio_base <= addr < mmio_base + MMIOSize evaluated without 16-bit truncation '
-                   '(a window relocated to 0xF800.. would never match): ' + render_stmt(f['body'], f, inline_locals=False)[:200])
+    check_inmmio(ctx, R5)
     ms = ctx.F['vars'].get('Teakra::MemoryInterfaceUnit::MMIOSize')
     rc = ctx.record('Teakra::MMIORegion::Impl')
     ncell = [fl['t']['ta'][1]['i'] for fl in rc['fields'] if fl['name'] == 'cells']
@@ -379,3 +356,30 @@ def load_docs(ctx):
         if 0x280 <= off < 0x300:
             out.setdefault(off + 0x80, out[off])
     return out
+
+
+def check_inmmio(ctx, R5):
+    """window test: base <= a < base + MMIOSize, with the upper bound NOT truncated to 16 bits (shared with C11.V6)"""
+    from ..intervals import Intervals
+    f = ctx.fn('Teakra::MemoryInterfaceUnit::InMMIO(unsigned short) const')
+    IV = Intervals(ctx.F, {})
+    lower = upper = False
+    for n in walk(f['body']):
+        if n.get('k') == 'bin' and n.get('op') in ('<', '<=', '>', '>='):
+            l, r = n['lhs'], n['rhs']
+            op = n['op']
+            if render(r, f) == '$0':
+                l, r = r, l
+                op = {'<': '>', '>': '<', '<=': '>=', '>=': '<='}[op]
+            if render(l, f) != '$0':
+                continue
+            if op == '>=' and render(r, f) == 'f:Teakra::MemoryInterfaceUnit::mmio_base':
+                lower = True
+            if op == '<':
+                iv = IV.iv(r, f)
+                if iv == (0x800, 0xFFFF + 0x800) and 'mmio_base' in render(r, f):
+                    upper = True
+    if not (lower and upper):
+        ctx.report(R5, f, f['body'], 'MemoryInterfaceUnit::InMMIO',
+                   'window test is not mmio_base <= addr < mmio_base + MMIOSize evaluated without 16-bit truncation '
+                   '(a window relocated to 0xF800.. would not match, or low addresses would alias it): ' + render_stmt(f['body'], f, inline_locals=False)[:200])
